@@ -95,6 +95,7 @@ struct scenario {
   leaf_cfg def;
   std::map<std::pair<int, int>, leaf_cfg> cfg;
   std::vector<int> prio;
+  std::map<std::string, std::string> kv;  // every key=value token as written (harness-specific keys)
   leaf_cfg get(int id, int n) const {
     leaf_cfg c = def;
     auto it = cfg.find({id, n});
